@@ -22,8 +22,8 @@ EVAL_FUNCS = 'eval_expr, eval_or_expr, eval_and_expr, eval_eq_expr, eval_relatio
 
 PROPS = {
     'C05': dict(
-        standin_ops=['xpath.query.node_test', 'xpath.query.axes', 'xpath.query.predicates', 'xpath.query.strings'],
-        verus_units=['eval_ctx', 'func_lib', 'c05_axes'],
+        standin_ops=['xpath.query.node_test', 'xpath.query.axes', 'xpath.query.predicates', 'xpath.query.strings', 'xpath.func.translate', 'xpath.func.substring', 'xpath.func.string_length'],
+        verus_units=['eval_ctx', 'func_lib', 'func_strings', 'c05_axes'],
         level='proof',
         trusted_base=TRUSTED_VERUS,
         assumptions=[A2, A9, A10 + '; node_type() / node_name() of a node are uninterpreted functions of the node (namespace nodes answer Attribute in this library)', A11, A8],
@@ -152,6 +152,7 @@ PROPS = {
     ),
     'C02': dict(
         standin_ops=['info.char_from_char10', 'info.char_from_char16', 'info.reject'],
+        quick_grids=['info.reject'],
         verus_units=['info_helpers'],
         level='proof',
         trusted_base=TRUSTED_VERUS,
